@@ -131,6 +131,18 @@ def run(ctx):
                 # allowed only if validate rebuilds it (checked above); still a smell: cross reference
                 ctx.xref("R10.2", loc(sinit, n), "temporal validator also constructed in __init__")
 
+    # ---------------- R10.5: the onset pass maps time points back to file rows by original_index
+    ctx.rule("R10.5", "rows that already failed are skipped by their original_index")
+    roc2 = sv.methods.get("_run_onset_checks")
+    if roc2 is not None:
+        for x in walk_no_nested(roc2.node):
+            if isinstance(x, ast.Compare) and any(isinstance(o, (ast.In, ast.NotIn)) for o in x.ops) and \
+                    "invalid_original_rows" in norm(x.comparators[0]):
+                ctx.check(isinstance(x.left, ast.Attribute) and x.left.attr == "original_index", "R10.5", roc2.qualname, x, loc(roc2, x),
+                          "the failed-row skip tests `%s` instead of the row's original_index: a valid Onset row is dropped (its "
+                          "Offset is then reported as unmatched) or a broken row is not skipped" % norm(x.left),
+                          desc="failed-row skip uses original_index")
+
     # ---------------- R10.4: every Delay-shifted group gets its own time point
     ctx.rule("R10.4", "each Delay-shifted group is appended under an index computed afresh for that group")
     delay_split_rule(ctx, "R10.4")
